@@ -111,8 +111,12 @@ class Concretiser:
             txt = self._uuid_text(num, canonical)
             if canonical:
                 return txt
-            # a non-canonical spelling: un-hyphenated (legacy) first, then upper-case variants
-            for cand in (txt, txt.upper(), self._uuid_text(num, True).upper(), '{' + self._uuid_text(num, True) + '}', 'urn:uuid:' + self._uuid_text(num, True)):
+            # a non-canonical spelling: un-hyphenated (legacy) first, then upper-case variants; the length the model gave the text is respected
+            from .models import f_strlen
+            want = self.int(f_strlen(t))
+            hy = self._uuid_text(num, True)
+            cands = (txt, txt.upper(), hy.upper(), hy[:9].upper() + hy[9:], '{' + hy + '}', 'urn:uuid:' + hy)
+            for cand in [x for x in cands if len(x) == want] + list(cands):
                 if cand not in self.used:
                     return cand
             raise ValueError('out of uuid spellings')
